@@ -33,6 +33,33 @@ type linkReq struct {
 	Depth     string `json:"depth,omitempty"`
 	Body      bool   `json:"body,omitempty"`
 	Range     string `json:"range,omitempty"`
+	// BodyFail > 0: the body breaks off with an error after BodyFail-1 bytes.
+	BodyFail int `json:"body_fail,omitempty"`
+	// Root: how the served directory is configured ("" = clean absolute path,
+	// "relative" = relative to the working directory, "via-link" = an absolute
+	// path one of whose elements is a symbolic link into another top-level
+	// directory).
+	Root string `json:"root,omitempty"`
+}
+
+type breakingBody struct {
+	data []byte
+	left int
+}
+
+func (b *breakingBody) Read(p []byte) (int, error) {
+	if b.left <= 0 {
+		return 0, fmt.Errorf("verif: injected body read error")
+	}
+	n := copy(p, b.data)
+	if n > b.left {
+		n = b.left
+	}
+	b.data, b.left = b.data[n:], b.left-n
+	if n == 0 {
+		return 0, fmt.Errorf("verif: injected body read error")
+	}
+	return n, nil
 }
 
 var linkNames = []string{"/ln-dir", "/ln-file", "/ln-abs-dir", "/ln-abs-file", "/dangling", "/dangling-deep", "/dangling-abs", "/loop", "/loop2a", "/ln-null",
@@ -74,6 +101,11 @@ func linkRequests() []linkReq {
 		l = append(l, linkReq{Method: "GET", Path: n, Range: "bytes=0-3"}, linkReq{Method: "GET", Path: n + "/"})
 		for _, d := range []string{"0", "1", "infinity"} {
 			l = append(l, linkReq{Method: "PROPFIND", Path: n, Depth: d})
+		}
+		// uploads that break off at once / half-way, onto and below the link
+		for _, k := range []int{1, 12} {
+			l = append(l, linkReq{Method: "PUT", Path: n, Body: true, BodyFail: k}, linkReq{Method: "PUT", Path: n + "/child", Body: true, BodyFail: k},
+				linkReq{Method: "PUT", Path: n + "/inner.txt", Body: true, BodyFail: k})
 		}
 		l = append(l, linkReq{Method: "PUT", Path: n, Body: true}, linkReq{Method: "PUT", Path: n + "/child", Body: true},
 			linkReq{Method: "MKCOL", Path: n + "/child"}, linkReq{Method: "GET", Path: n + "/child"}, linkReq{Method: "GET", Path: n + "/inner.txt"},
@@ -126,17 +158,51 @@ func LinkSlice(c *fw.Ctx, mn Monitors) {
 	if res, err := filepath.EvalSymlinks(base); err == nil && res != base {
 		needles = append(needles, res)
 	}
-	h := &webdav.Handler{FileSystem: webdav.LocalFileSystem(root)}
-	for i, r := range linkRequests() {
+	// The served directory configured in three spellings: h[""] as a clean
+	// absolute path; h["relative"] relative to the working directory;
+	// h["via-link"] through a symbolic link that lives in another top-level
+	// directory (/var -> /private/var, /srv -> /mnt/x are everyday cases), so
+	// that the configured and the resolved path share no prefix.
+	handlers := map[string]*webdav.Handler{"": {FileSystem: webdav.LocalFileSystem(root)}}
+	modes := []string{""}
+	if wd, err := os.Getwd(); err == nil {
+		if rel, err := filepath.Rel(wd, root); err == nil && !filepath.IsAbs(rel) {
+			handlers["relative"] = &webdav.Handler{FileSystem: webdav.LocalFileSystem(rel)}
+			modes = append(modes, "relative")
+		}
+	}
+	if via, err := ioutil.TempDir("", "verif-via-"); err == nil {
+		defer os.RemoveAll(via)
+		top := func(p string) string { return strings.SplitN(strings.TrimPrefix(filepath.Clean(p), "/"), "/", 2)[0] }
+		if rv, err := filepath.EvalSymlinks(via); err == nil && top(rv) != top(root) && os.Symlink(base, filepath.Join(via, "mnt")) == nil {
+			spelled := filepath.Join(via, "mnt", filepath.Base(root))
+			handlers["via-link"] = &webdav.Handler{FileSystem: webdav.LocalFileSystem(spelled)}
+			modes = append(modes, "via-link")
+			needles = append(needles, spelled, via)
+		}
+	}
+	if len(modes) < 3 {
+		c.Observe("link_slice_root_spellings", fmt.Sprintf("only %v available here", modes), 1)
+	}
+	reqs := linkRequests()
+	for i := 0; i < len(modes)*len(reqs); i++ {
 		if !c.Mine(i) {
 			continue
 		}
+		r := reqs[i%len(reqs)]
+		r.Root = modes[i/len(reqs)]
+		h := handlers[r.Root]
+		c.Observe("link_slice_root_spellings", "requests under root spelling: "+map[string]string{"": "clean absolute"}[r.Root]+r.Root, 1)
 		if err := buildLinkTree(root); err != nil {
 			c.Inconclusive("link slice: " + err.Error())
 			return
 		}
 		var req *http.Request
-		if r.Body {
+		if r.Body && r.BodyFail > 0 {
+			data := []byte("data written through a link")
+			req = httptest.NewRequest(r.Method, r.Path, &breakingBody{data: data, left: r.BodyFail - 1})
+			req.ContentLength = int64(len(data))
+		} else if r.Body {
 			req = httptest.NewRequest(r.Method, r.Path, strings.NewReader("data written through a link"))
 		} else {
 			req = httptest.NewRequest(r.Method, r.Path, nil)
@@ -238,7 +304,14 @@ func linkKind(r linkReq) string {
 	if !isLinkPath(p) {
 		name = "collection-with-links"
 	}
-	return role + "=" + name + below
+	k := role + "=" + name + below
+	if r.BodyFail > 0 {
+		k += "|body-breaks-off"
+	}
+	if r.Root != "" {
+		k += "|root=" + r.Root
+	}
+	return k
 }
 
 func isLinkPath(p string) bool {
